@@ -98,11 +98,11 @@ CHECKS = {
 
 PENDING = {
  "C10": "check under construction in this session (variants/transforms of generated programs) The twin-package value program (same expression text, different meaning per package).",
- "C13": "check under construction in this session (value-expression grammar) Added: parameters spelled like package-level variables / constants / functions; positional struct literals with unexported fields (plain, &, elided element and key types, generic, alias) must be refused across packages and accepted at home; literals of two-type-argument generics and function types with named parameters must be accepted. Slice capacity is part of the comparison; dot-imported types of internal packages, also as embedded fields.",
+ "C13": "check under construction in this session (value-expression grammar) Added: parameters spelled like package-level variables / constants / functions; positional struct literals with unexported fields (plain, &, elided element and key types, generic, alias) must be refused across packages and accepted at home; literals of two-type-argument generics and function types with named parameters must be accepted. Slice capacity is part of the comparison; dot-imported types of internal packages, also as embedded fields. Literal spellings (digit separators, binary/octal/hex, hex floats, imaginary); selections through fields typed by internal packages.",
  "C14": "check under construction in this session (adversarial naming) The twin-package value program.",
  "C15": "check under construction in this session (copied declarations) Corpus: local generic types reached through instantiations, //go:embed attached, in a var group and detached by a blank line. Ungrouped var / type declarations ending in a qualified name, with literal parameters spelled like the imports they use.",
- "C16": "check under construction in this session (determinism across layouts) Added invocation forms: the package named by the list of its files in sorted, reversed and rotated order; vendored packages whose path has an element ending in \"vendor\". Programs in which several same-named packages are first mentioned inside one expression, 16-40 fresh-process repeats; a package using an internal package named by directory, by file list (two orders) and by '.'.",
- "C17": "check under construction in this session (CLI contract) Unusable header kinds: missing, a directory, plain text, an unterminated comment (gen: non-zero exit and untouched tree; diff: exit 2); prefixes containing a path separator must not make gen write anywhere. Header kind with a //go:build line of its own (refused, or written with !wireinject kept); one fixed scenario per unusable header kind with a package that would be written. Prior outputs longer / shorter than the new one; header spellings //go:build<TAB>, indented; -tags with line breaks; prefixes the go tool ignores (the written file must be among the package's Go files); diff over an unreadable output exits 2. A package whose generated text cannot be formatted keeps its previous output.",
+ "C16": "check under construction in this session (determinism across layouts) Added invocation forms: the package named by the list of its files in sorted, reversed and rotated order; vendored packages whose path has an element ending in \"vendor\". Programs in which several same-named packages are first mentioned inside one expression, 16-40 fresh-process repeats; a package using an internal package named by directory, by file list (two orders) and by '.'. Copied declarations in both injector files.",
+ "C17": "check under construction in this session (CLI contract) Unusable header kinds: missing, a directory, plain text, an unterminated comment (gen: non-zero exit and untouched tree; diff: exit 2); prefixes containing a path separator must not make gen write anywhere. Header kind with a //go:build line of its own (refused, or written with !wireinject kept); one fixed scenario per unusable header kind with a package that would be written. Prior outputs longer / shorter than the new one; header spellings //go:build<TAB>, indented; -tags with line breaks; prefixes the go tool ignores (the written file must be among the package's Go files); diff over an unreadable output exits 2. A package whose generated text cannot be formatted keeps its previous output. Priors differing only in line terminators; -tags separated by commas; a header whose block comment quotes a constraint line; the default command with options.",
  "C18": "check under construction in this session (regeneration histories) Damage kind: output as an earlier gen -tags run leaves it; every third gen/diff/check step is issued from the package's own directory (\".\" or no pattern).",
  "C19": "check under construction in this session (check/show agreement) Show output is compared modulo the predeclared alternative spellings of a type. Agreement also over injector templates in unusual forms (method, type parameters, alias-typed signatures) and over injector files that start with a Code generated header. check must also report what gen refuses only while writing code out; show: two different types of one spelling both listed, same text on 8 runs; sets whose outputs need a variadic provider's slice from outside.",
  "C20": "check under construction in this session (argument-form space) Forms: variables of standard-library packages as wire.Build arguments. Forms with something missing below a field selection / struct provider / binding.",
@@ -111,11 +111,11 @@ PENDING = {
 
 # Families added after the first version of each check (appended to the description).
 ADDENDA = {
- "C01": "A quarter of every generated pool runs under an adversarial consistent renaming (same names in different packages, packages sharing a name, blank/missing parameter names), a fifth blank-imports its own library packages; result kinds include funcs with (variadic) parameters, channels of channels, unicode and one-rune type names; probes with providers living in internal packages. One library package of every multi-package pool program lives under a directory whose name merely ends in \"vendor\"; injector templates as methods / with type parameters / with alias-typed parameters (internal, unexported, unnamed-struct, embedded alias = known finding F46) must be refused or compile together with a caller written in the template's form. Result kinds include interface literals that embed a named interface. Injector templates whose wire.Build call is parenthesised; doc and field comments that read as build constraints; several value variables of one suggested name in one injector. The callee of wire.Build / panic / wire.NewSet written in parentheses.",
- "C02": "Added families: interface / concrete type / its input requested in every order (bind-order), a struct and its pointer type from two different sources with a field provider over one of them (counterparts), a parameter named like a later local of an assignable type, twin packages with same-named values; a compile error 'cannot use X as T in argument/struct literal/return' in wire_gen.go also counts as wrong wiring; zero-call injectors with two assignable arguments (pass-through-args); two packages sharing package clause and member names (twin packages). One type under two spellings (rune/int32, byte/uint8, any/interface{}; directly, as element, key, parameter, behind a pointer) supplied once and consumed three times, from five source kinds.",
+ "C01": "A quarter of every generated pool runs under an adversarial consistent renaming (same names in different packages, packages sharing a name, blank/missing parameter names), a fifth blank-imports its own library packages; result kinds include funcs with (variadic) parameters, channels of channels, unicode and one-rune type names; probes with providers living in internal packages. One library package of every multi-package pool program lives under a directory whose name merely ends in \"vendor\"; injector templates as methods / with type parameters / with alias-typed parameters (internal, unexported, unnamed-struct, embedded alias = known finding F46) must be refused or compile together with a caller written in the template's form. Result kinds include interface literals that embed a named interface. Injector templates whose wire.Build call is parenthesised; doc and field comments that read as build constraints; several value variables of one suggested name in one injector. The callee of wire.Build / panic / wire.NewSet written in parentheses. Providers in an internal package of an internal package; a value function that re-enters its injector (known finding F70).",
+ "C02": "Added families: interface / concrete type / its input requested in every order (bind-order), a struct and its pointer type from two different sources with a field provider over one of them (counterparts), a parameter named like a later local of an assignable type, twin packages with same-named values; a compile error 'cannot use X as T in argument/struct literal/return' in wire_gen.go also counts as wrong wiring; zero-call injectors with two assignable arguments (pass-through-args); two packages sharing package clause and member names (twin packages). One type under two spellings (rune/int32, byte/uint8, any/interface{}; directly, as element, key, parameter, behind a pointer) supplied once and consumed three times, from five source kinds. Number, rune and string literals in every spelling as value sources.",
  "C03": "Added: the full product of provider result shapes over chains (links through bindings and struct fields, providers in two packages), the result-kind matrix (zero value per kind, judged on the typed result variable so a typed nil in an interface is non-zero). Cleanup chains of 12 and 23 providers (thorough 37, 104): cleanup variable numbering beyond 10 and 100. Cleanup providers sharing one function name across packages.",
  "C04": "Added: the full product of provider result shapes over chains, injectors without an error result and with a single cleanup. Cleanup providers sharing one function name across packages (also packages of one name).",
- "C05": "Added source kind: a second binding to the same concrete type; placements inline / two levels / inline siblings; the same set listed twice; class SPELL: one type written in two spellings ([]byte/[]uint8, rune/int32, any/interface{}). Source kind bindVia: a binding that can only be resolved after a later one of the same group, in four placements and both orders. Two injector parameters of identical types are always tried in the injector's own signature.",
+ "C05": "Added source kind: a second binding to the same concrete type; placements inline / two levels / inline siblings; the same set listed twice; class SPELL: one type written in two spellings ([]byte/[]uint8, rune/int32, any/interface{}). Source kind bindVia: a binding that can only be resolved after a later one of the same group, in four placements and both orders. Two injector parameters of identical types are always tried in the injector's own signature. Every other cell spells its injector parameters _.",
  "C06": "Added near-miss rows: FieldsOf parent counterparts, variadic providers whose slice type has no source (nothing / element / array / pointer-to-slice provided). Near-miss forms: another instantiation of the same generic type (also nested), the other spelling of a type (accepted); positions: a later parameter / field of the provider that also takes the provided near miss. Positions: embedded field under \"*\", an input of the provider of a struct a field is selected from.",
  "C07": "Every graph family also comes with its sources spread over several set variables (5 layouts incl. sub-sets listed directly in wire.Build); scaling lattices through struct fields, bindings and field providers. Added: binding chains (50/200/400 long, listed from either end) with a step counter on the used-bindings walk; an erroneous leaf set under 4/8/16 levels of doubled set inclusion, judged on the number of diagnostic lines (linear budget, at most tripling when depth doubles); the spelling-twins programs under the step cap. Sets of interface bindings that only lead to each other (loops, tails into loops); every wire process runs under a CPU-time cap whose exhaustion is reported like a step-cap event.",
  "C08": "Added: bind-order family as contributing controls; pass-through injectors (result is a parameter, directly or behind a binding; value only; field of a parameter) x every superfluous kind. Controls: a FieldsOf item listing several fields of which one is needed, listed directly in wire.Build (value and pointer parents, pointer-to-field). A superfluous binding at every position around binding chains listed in five orders.",
